@@ -173,9 +173,11 @@ pub fn enum_total(kind: &str, thorough: bool) -> u64 {
     }
 }
 
-const REMNANT_ALPHABET: [char; 16] = ['a', 'i', '\'', '"', '*', '?', '=', '>', '<', '-', '.', '1', '(', ')', ' ', 'é'];
-const INSERTS: [&str; 24] = [
+const REMNANT_ALPHABET: [char; 18] = ['a', 'i', '\'', '"', '*', '?', '=', '>', '<', '-', '.', '1', '(', ')', ' ', 'é', '\u{130}', '\u{b}'];
+const INSERTS: [&str; 34] = [
     "'", "\"", "-", "=", "==", "(", ")", ",", "é", "日", "🦀", "\u{0}", "\n", " ", "*", "?", "i", ".", "[", "]", "#", ">", "<=", "\t",
+    // characters whose lower/upper case form has another UTF-8 length, and other whitespace
+    "\u{130}", "\u{212a}", "\u{1e9e}", "\u{212b}", "\u{2126}", "\u{b}", "\u{c}", "\r", "\u{a0}", "\u{2028}",
 ];
 
 fn damage_string(rng: &mut Rng, s: &str) -> String {
@@ -569,6 +571,20 @@ fn exec_text(sc: &Scenario) -> Outcome {
         text_case("into_identifier", &mut vs, &mut stats, &s, || s.clone().into_identifier().is_ok());
         let is = format!("i{}", s);
         text_case("into_identifier(i-prefixed)", &mut vs, &mut stats, &is, || is.clone().into_identifier().is_ok());
+        // the damaged text inside every delimiter the pattern syntax knows, with and without i
+        let core = s.trim_matches(|c| c == '*' || c == '"' || c == '\'');
+        for w in [
+            format!("*{}*", core),
+            format!("*{}", core),
+            format!("{}*", core),
+            format!("\"{}\"", core),
+            format!("'{}'", core),
+            format!("?{}", core),
+        ] {
+            let iw = format!("i{}", w);
+            text_case("into_identifier(wrapped)", &mut vs, &mut stats, &w, || w.clone().into_identifier().is_ok());
+            text_case("into_identifier(i-wrapped)", &mut vs, &mut stats, &iw, || iw.clone().into_identifier().is_ok());
+        }
         for (name, y) in [
             ("parse_identifier(value)", ymap("f", ys(&s))),
             ("parse_identifier(list)", ymap("f", Yaml::Sequence(vec![ys(&s), ys("foo"), ys(&is)]))),
